@@ -249,11 +249,9 @@ func (fs LocalFileSystem) Copy(ctx context.Context, src, dst string, options *Co
 	// TODO: "Note that an infinite-depth COPY of /A/ into /A/B/ could lead to
 	// infinite recursion if not handled correctly"
 
-	srcInfo, err := os.Stat(srcPath)
-	if err != nil {
+	if _, err := os.Stat(srcPath); err != nil {
 		return false, errFromOS(err)
 	}
-	srcPerm := srcInfo.Mode() & os.ModePerm
 
 	if _, err := os.Stat(dstPath); err != nil {
 		if !os.IsNotExist(err) {
@@ -274,12 +272,21 @@ func (fs LocalFileSystem) Copy(ctx context.Context, src, dst string, options *Co
 			return err
 		}
 
+		// p is the walked entry below srcPath: copy it to the same
+		// relative location below dstPath
+		rel, err := filepath.Rel(srcPath, p)
+		if err != nil {
+			return err
+		}
+		dst := filepath.Join(dstPath, rel)
+		perm := fi.Mode() & os.ModePerm
+
 		if fi.IsDir() {
-			if err := os.Mkdir(dstPath, srcPerm); err != nil {
+			if err := os.Mkdir(dst, perm); err != nil {
 				return errFromOS(err)
 			}
 		} else {
-			if err := copyRegularFile(srcPath, dstPath, srcPerm); err != nil {
+			if err := copyRegularFile(p, dst, perm); err != nil {
 				return err
 			}
 		}
